@@ -89,6 +89,12 @@ def check(run):
             if extra is not None and all(x.startswith(("KEscaped:", "KUnicode:")) for x in extra):
                 for x in extra:
                     probs.append(("tree", "rawbody:escaped" if x.startswith("KEscaped:") else "rawbody:unicode"))
+            elif extra and all(x.startswith("KSingle:") for x in extra) and bp.get("source") and len(bp["source"]) == len(extra) and \
+                    all(x.startswith(("KEscaped:", "KUnicode:")) for x in bp["source"]):
+                # the same E'..' / U&'..' bodies in a position that stores a bare string (parse_literal_string: LIKE .. ESCAPE,
+                # COPY .. DELIMITER, COMMENT .. IS, typed strings): un-escaped by the tokenizer as above, printed with plain quotes
+                for x in bp["source"]:
+                    probs.append(("tree", "rawbody:escaped" if x.startswith("KEscaped:") else "rawbody:unicode"))
             else:
                 probs.append(("tree", "bodies:" + json.dumps(bp, ensure_ascii=False)))
         for level, p in probs:
